@@ -43,7 +43,7 @@ def volume_bracket(x, c, xmin, xmax, move, maxvol, l1l2tol=1e-4, l1=0.0, l2=1000
 
 def record_run(rng, tid):
     import pymoto as pym
-    prob = optprob.make_problem(rng)
+    prob = optprob.make_problem(rng, start=optprob.START_CYCLE[tid % len(optprob.START_CYCLE)])
     lens, n, c = prob["lens"], prob["n"], prob["c"]
     net = pym.Network(prob["net"].mods[:1])        # objective only: sum c/x, negative gradient
     obj = prob["responses"][0]
@@ -55,7 +55,7 @@ def record_run(rng, tid):
     if rng.random() < 0.5:
         xmax_arg, xmax_spec, xmax_v = float(1.0), dict(kind="scalar", v=fp(1.0)[0]), np.full(n, 1.0)
     else:
-        xmax_v = rng.uniform(0.8, 1.5, n)
+        xmax_v = rng.uniform(1.0 if prob["start"] == "int" else 0.8, 1.5, n)
         xmax_arg, xmax_spec = xmax_v.copy(), dict(kind="pervariable", v=fp(xmax_v))
     move = float(rng.choice([0.05, 0.1, 0.2]))
     x0 = prob["x0"]
